@@ -152,6 +152,9 @@ class Conventions(object):
 SHORT_EOF_WRAPPERS = ('read_data',)
 
 
+from .common import atom_cmp as atom_cmp  # noqa
+
+
 class SiteRule(Rule):
     """Tracks the outcome of one call site through its caller."""
     name = 'R1.errdisc'
@@ -190,6 +193,24 @@ class SiteRule(Rule):
                 self.len = self.pstr(args[l])
         self.tag = None
         self.raw_read = (nm in ('read', 'pread'))
+        # a bounded read: the count asked for is computed (what is left of a known total), not a constant block size.
+        # For such a read the end of the file is not a normal end of input: bytes that must come are missing.
+        self.bounded = False
+        self.len_names = set()
+        if self.raw_read and caller.name not in SHORT_EOF_WRAPPERS and len(call.a) > 3:
+            le = call.a[3]
+            if const_value(le) is None:
+                def _names(e, depth=0):
+                    out = set()
+                    for n in walk(e):
+                        if n.k == 'var' and getattr(n, 'dk', None) in ('VarDecl', 'ParmVarDecl'):
+                            out.add(n.op)
+                            d = (subst or {}).get(n.decl)
+                            if d is not None and depth < 4:
+                                out |= _names(d, depth + 1)
+                    return out
+                self.len_names = _names(le)
+                self.bounded = bool(self.len_names)
 
     def result_mask(self, ctx):
         """Current (refined) classes of this site's result, wherever it lives."""
@@ -282,6 +303,15 @@ class SiteRule(Rule):
                     if ge_edge is not None and bool(label) == ge_edge:
                         return None
             return ts
+        if ts == 'eof' and self.bounded:
+            # a test that nothing was left to read (remainder == 0 on this edge) makes the early end harmless
+            op, l, r = atom_cmp(node.e, label)
+            sl = strip(l)
+            if sl is not None and sl.k == 'var' and sl.op in self.len_names and const_value(r) is not None:
+                cv = const_value(r)
+                if (op == '==' and cv == 0) or (op == '<=' and cv <= 0) or (op == '<' and cv <= 1):
+                    return 'ok'
+            return ts
         if ts != 'short':
             return ts
         # the result is known not to be positive any more (EOF or error edge): nothing was left unread
@@ -317,6 +347,10 @@ class SiteRule(Rule):
                     if ts == 'fail' or self.kind == 'write':
                         self.report(ctx, 'to-success' if ts == 'fail' else 'short-write', call,
                                     'exit(%s) with status possibly 0' % show(call.a[1]))
+                if ts == 'eof' and self.bounded and (am & Z):
+                    self.report(ctx, 'eof-exit', call, 'exit(%s) with status possibly 0 after %s hit the end of the file '
+                                'while %s byte(s) were still expected: the copy is incomplete and nothing tests what was '
+                                'left' % (show(call.a[1]), self.callee_label, self.len))
             return None
         if ts == 'short' and self.kind == 'write' and call.uid != self.call.uid and \
                 (callee_name(call) in WRITE_LIKE):
@@ -341,6 +375,10 @@ class SiteRule(Rule):
             if not (node.e is not None and self.is_result(ctx.origins(node.e))) and mask & self.caller_succ:
                 self.report(ctx, 'short-exit', node, 'success exit while the last read() may have returned a '
                             'positive short count: only 0 means end of file')
+        if ts == 'eof' and self.bounded and self.caller_conv != 'void' and mask & self.caller_succ and \
+                not (node.e is not None and self.is_result(ctx.origins(node.e))):
+            self.report(ctx, 'eof-exit', node, 'success exit after %s hit the end of the file while %s byte(s) were still '
+                        'expected' % (self.callee_label, self.len))
         if ts == 'fail' or (ts == 'short' and self.kind == 'write'):
             if self.caller_conv == 'void':
                 if node.k == 'exit' or node.e is None:
